@@ -259,6 +259,13 @@ inline void set_current_case(Case const& c, char const* target = "")
     std::memcpy(detail::cur_buf(), s.data(), n);
     detail::cur_len() = n;
     detail::case_started().store(std::chrono::duration_cast<std::chrono::milliseconds>(std::chrono::steady_clock::now().time_since_epoch()).count());
+    // VERIF_EAGER_DUMP=1: write the case to disk before running it (for crashes that also take the death callback down)
+    static const bool eager = std::getenv("VERIF_EAGER_DUMP") != nullptr;
+    if (eager && !detail::cur_path().empty())
+    {
+        int fd = ::open(detail::cur_path().c_str(), O_WRONLY | O_CREAT | O_TRUNC, 0644);
+        if (fd >= 0) { ssize_t r = ::write(fd, detail::cur_buf(), detail::cur_len()); (void)r; ::close(fd); }
+    }
 }
 
 // Watchdog: a single generated case normally takes micro- to milliseconds. One that is still running after
@@ -592,6 +599,8 @@ inline int main_impl(int argc, char** argv, char const* target_name)
     ev.note("wall_s=" + std::to_string(t.s()));
     if (ev.n_failures() > 0) rc = 1;
     ev.write(evpath);
+    detail::death_hook() = nullptr;   // the evidence object does not outlive main: nothing to flush at exit-time deaths (LeakSanitizer)
+    detail::cur_path().clear();
     return rc;
 }
 } // namespace verif
